@@ -107,6 +107,36 @@ impl St {
             St::Lj(s) => rt!(s, PotentialState<LJShape2>),
         }
     }
+    /// score a clone, replace its (public) shape field, score again - and score a state rebuilt from the
+    /// mutated clone's own JSON: the score must be a function of what the state IS, not of its history
+    pub fn reshape_then_score(&self) -> Option<(Option<f64>, Option<f64>)> {
+        match self {
+            St::Poly(s) => {
+                let mut c = s.clone();
+                let _ = c.score();
+                c.shape = LineShape::polygon(if c.shape.items.len() == 4 { 5 } else { 4 }).ok()?;
+                let a = c.score();
+                let fresh: PackedState<LineShape> = serde_json::from_value(serde_json::to_value(&c).ok()?).ok()?;
+                Some((a, fresh.score()))
+            }
+            St::Mol(s) => {
+                let mut c = s.clone();
+                let _ = c.score();
+                c.shape = if c.shape.items.len() == 1 { MolecularShape2::from_trimer(0.637556, 120., 1.) } else { MolecularShape2::circle() };
+                let a = c.score();
+                let fresh: PackedState<MolecularShape2> = serde_json::from_value(serde_json::to_value(&c).ok()?).ok()?;
+                Some((a, fresh.score()))
+            }
+            St::Lj(s) => {
+                let mut c = s.clone();
+                let _ = c.score();
+                c.shape = if c.shape.items.len() == 1 { LJShape2::from_trimer(0.637556, 120., 1.) } else { LJShape2::circle() };
+                let a = c.score();
+                let fresh: PotentialState<LJShape2> = serde_json::from_value(serde_json::to_value(&c).ok()?).ok()?;
+                Some((a, fresh.score()))
+            }
+        }
+    }
     pub fn svg(&self) -> String {
         use packing::traits::ToSVG;
         each!(self, s => format!("{}", s.as_svg()))
@@ -179,6 +209,25 @@ fn optimised<S: State + serde::de::DeserializeOwned>(st: S, spec: &Spec) -> S {
     cur
 }
 
+/// cuts= / epss= / sigs= : per-particle overrides of a Lennard-Jones molecule (values separated by ':', '-' = no
+/// cutoff / unchanged) - molecules of unlike particles that only the library API or a file can describe
+fn lj_overrides(v: &mut Value, spec: &Spec) {
+    for (key, field) in [("cuts", "cutoff"), ("epss", "epsilon"), ("sigs", "sigma")].iter() {
+        if let Some(list) = spec.kv.get(*key) {
+            for (i, t) in list.split(':').enumerate() {
+                if v["shape"]["items"].get(i).is_none() {
+                    break;
+                }
+                if *field == "cutoff" {
+                    v["shape"]["items"][i][*field] = if t == "-" { Value::Null } else { json!(parse_f(t)) };
+                } else if t != "-" {
+                    v["shape"]["items"][i][*field] = json!(parse_f(t));
+                }
+            }
+        }
+    }
+}
+
 fn inject<S: serde::Serialize + serde::de::DeserializeOwned>(st: &S, p: &Option<Params>) -> S {
     let mut v = serde_json::to_value(st).unwrap();
     if let Some(p) = p {
@@ -198,6 +247,15 @@ fn inject<S: serde::Serialize + serde::de::DeserializeOwned>(st: &S, p: &Option<
         }
     }
     serde_json::from_value(v).expect("state from JSON")
+}
+
+fn lj_inject(st: &PotentialState<LJShape2>, spec: &Spec) -> PotentialState<LJShape2> {
+    if !(spec.kv.contains_key("cuts") || spec.kv.contains_key("epss") || spec.kv.contains_key("sigs")) {
+        return st.clone();
+    }
+    let mut v = serde_json::to_value(st).unwrap();
+    lj_overrides(&mut v, spec);
+    serde_json::from_value(v).expect("LJ state with overridden particles")
 }
 
 /// shape=polygon:5 | radial:1:0.9:1:0.95 | circle | trimer:r:angle:d
@@ -226,10 +284,10 @@ pub fn build(spec: &Spec) -> St {
             let sh = MolecularShape2::from_trimer(parse_f(parts[1]), parse_f(parts[2]), parse_f(parts[3]));
             St::Mol(optimised(inject(&PackedState::from_group(sh, &g).unwrap(), &p), spec))
         }
-        ("circle", true) => St::Lj(optimised(inject(&PotentialState::from_group(LJShape2::circle(), &g).unwrap(), &p), spec)),
+        ("circle", true) => St::Lj(optimised(lj_inject(&inject(&PotentialState::from_group(LJShape2::circle(), &g).unwrap(), &p), spec), spec)),
         ("trimer", true) => {
             let sh = LJShape2::from_trimer(parse_f(parts[1]), parse_f(parts[2]), parse_f(parts[3]));
-            St::Lj(optimised(inject(&PotentialState::from_group(sh, &g).unwrap(), &p), spec))
+            St::Lj(optimised(lj_inject(&inject(&PotentialState::from_group(sh, &g).unwrap(), &p), spec), spec))
         }
         _ => panic!("unsupported shape/kind {}", spec.text),
     }
@@ -908,6 +966,18 @@ pub fn run_state_case(spec: &Spec, out: &mut dyn Write) -> GeomOut {
                     add(&mut f, "C02", format!("packing fraction {:?} outside (0, 1]{}", sc, class));
                 }
             }
+        }
+    }
+    // ---------------- C02 / C11: the score is a function of the state as serialised, whatever was scored before
+    if let Some((a, b)) = st.reshape_then_score() {
+        let same = match (a, b) {
+            (Some(x), Some(y)) => x.to_bits() == y.to_bits() || (x.is_nan() && y.is_nan()),
+            (None, None) => true,
+            _ => false,
+        };
+        if !same {
+            add(&mut f, "C02,C03,C11", format!(
+                "a state that was scored, then given another shape, scores {:?}; the state rebuilt from its own JSON scores {:?}", a, b));
         }
     }
     // ---------------- C11: JSON round trip and SVG
